@@ -11,7 +11,7 @@ use std::collections::BTreeSet;
 /// (generics, where, field type, concrete Self type, concrete field type, constructor value,
 ///  mutation through deref_mut (binding `d`), check on the field afterwards,
 ///  direct mutation of the field, check through deref (binding `r`))
-const ROWS: [(&str, &str, &str, &str, &str, &str, &str, &str, &str, &str); 13] = [
+const ROWS: [(&str, &str, &str, &str, &str, &str, &str, &str, &str, &str); 14] = [
     ("", "", "u8", "X", "u8", "5u8", "*d = 9;", "x.F == 9", "x.F = 3;", "*r == 3"),
     ("", "", "String", "X", "String", "String::from(\"a\")", "d.push('z');", "x.F == \"az\"", "x.F.push('q');", "r.as_str() == \"azq\""),
     ("", "", "Box<[u8]>", "X", "Box<[u8]>", "vec![1u8, 2].into_boxed_slice()", "d[0] = 7;", "x.F[0] == 7", "x.F[1] = 8;", "r[1] == 8"),
@@ -25,6 +25,8 @@ const ROWS: [(&str, &str, &str, &str, &str, &str, &str, &str, &str, &str); 13] =
     ("<T, U: Copy>", "where U: Default", "(T, U)", "X<u8, i8>", "(u8, i8)", "(1u8, 2i8)", "d.0 = 7;", "x.F.0 == 7", "x.F.1 = 8;", "r.1 == 8"),
     // a const parameter declared BEFORE a type parameter, and between a lifetime and a type
     ("<const N: usize, T>", "", "[T; N]", "X<2, u8>", "[u8; 2]", "[1u8, 2]", "d[0] = 7;", "x.F[0] == 7", "x.F[1] = 8;", "r[1] == 8"),
+    // a declared higher-ranked where-predicate
+    ("<T>", "where for<'x> &'x T: IntoIterator<Item = &'x u8>", "T", "X<Vec<u8>>", "Vec<u8>", "vec![1u8]", "d.push(2);", "x.F == vec![1, 2]", "x.F.push(3);", "r.len() == 3"),
     ("<'a, const N: usize, T: Copy>", "where T: Default", "&'a [T; N]", "X<'static, 2, u8>", "&'static [u8; 2]", "&[1u8, 2]", "*d = &[7u8, 2];", "x.F[0] == 7", "x.F = &[7u8, 8];", "r[1] == 8"),
 ];
 
@@ -38,28 +40,35 @@ struct Case {
     list: usize,
     /// the named field is a raw identifier
     raw: bool,
+    /// a sibling module named `core` is in scope
+    core_mod: bool,
     entry: Entry,
 }
 
 fn gen(ch: &mut Ch, _thorough: bool) -> Option<Case> {
     let row = ch.pick(ROWS.len());
     let named = ch.flag();
-    let list = ch.pick(4);
+    // 4 = `#[derive_ex(Deref)] #[derive_ex(DerefMut)]` stacked
+    let list = ch.pick(5);
+    let core_mod = ch.flag();
     let raw = ch.flag();
     let entry = *ch.of(&Entry::BOTH);
     if raw && !named {
         return None;
     }
-    if list == 3 && (!ROWS[row].0.contains('T') || ROWS[row].0.contains("?Sized")) {
+    if core_mod && (raw || list == 3 || entry == Entry::Derive && named) {
         return None;
     }
-    Some(Case { vector: ch.vector(), row, named, list, raw, entry })
+    if list == 3 && (!ROWS[row].0.contains('T') || ROWS[row].0.contains("?Sized") || ROWS[row].3.contains("Vec<")) {
+        return None;
+    }
+    Some(Case { vector: ch.vector(), row, named, list, raw, core_mod, entry })
 }
 
 fn build(c: &Case, tier: &str) -> XCase {
     let (g, wh, fty, selfty, cfty, ctor, mut_d, chk_f, mut_f, chk_r) = ROWS[c.row];
     let f = if c.named { if c.raw { "r#type" } else { "inner" } } else { "0" };
-    let list = ["Deref, DerefMut", "Deref", "DerefMut", "Deref, DerefMut, bound(T: ::core::marker::Copy)"][c.list];
+    let list = ["Deref, DerefMut", "Deref", "DerefMut", "Deref, DerefMut, bound(T: ::core::marker::Copy)", "Deref)] #[derive_ex(DerefMut"][c.list];
     let head = match c.entry {
         Entry::Attr => format!("#[derive_ex({list})]"),
         Entry::Derive => format!("#[derive(Ex)]\n#[derive_ex({list})]"),
@@ -68,6 +77,9 @@ fn build(c: &Case, tier: &str) -> XCase {
     let rep = |s: &str| s.replace(".F", &format!(".{f}"));
     let mut s = String::new();
     s.push_str("use derive_ex::{derive_ex, Ex};\nuse ::core::ops::{Deref, DerefMut};\n");
+    if c.core_mod {
+        s.push_str("#[allow(unused)] pub mod core { pub mod ops {} }\n");
+    }
     s.push_str(&format!("{head}\n{item}\n"));
     if c.list == 2 {
         // hand-written Deref so that DerefMut alone is derivable
@@ -106,8 +118,9 @@ fn build(c: &Case, tier: &str) -> XCase {
     atoms.insert(format!("list={list}"));
     atoms.insert(format!("field_ty={fty}"));
     atoms.insert(format!("generics={g}"));
+    atoms.insert(format!("sibling_mod_core={}", c.core_mod));
     XCase {
-        text: format!("{} {} {}", c.entry.name(), list, item),
+        text: format!("{} {} {}{}", c.entry.name(), list, item, if c.core_mod { " [next to `mod core`]" } else { "" }),
         code: s,
         expected: exp,
         atoms,
